@@ -30,5 +30,6 @@ PROPERTY StopSticky
 PROPERTY DoneIsFinal
 PROPERTY RaiseStops
 PROPERTY FlagPerProcess
+PROPERTY PbpOneThread
 INVARIANT EmitFinal
 CHECK_DEADLOCK FALSE
